@@ -342,7 +342,7 @@ func c04Step(m *dyn.Model, e *txn.Engine, pre *ref.DB, ops []ref.Op, r *ev.Run) 
 }
 
 func c04Child(r *ev.Run, batch int) {
-	schemas := r.N(3, 30)
+	schemas := r.N(4, 30)
 	txns := r.N(200, 500)
 	for si := 0; si < schemas; si++ {
 		p := prng.Derive(r.Seed, "C04", batch, si)
@@ -352,6 +352,10 @@ func c04Child(r *ev.Run, batch int) {
 		o.ScalarRefs = p.Chance(1, 3)
 		o.MaxCols = 4
 		s := tspace.Gen(p, o)
+		cascade := si%2 == 1 // directed chain family: multi-iteration garbage collection and weak pruning
+		if cascade {
+			s = cascadeSchema(p)
+		}
 		m, err := dyn.Build(s, nil)
 		if err != nil {
 			r.Violation("C04/harness/model-build", "cannot build run-time model: "+err.Error(), map[string]interface{}{"schema": string(s.JSON())})
@@ -379,6 +383,10 @@ func c04Child(r *ev.Run, batch int) {
 		}
 		for ti := 0; ti < txns; ti++ {
 			ops := g.Txn(pre)
+			if cascade && p.Chance(3, 5) {
+				ops = cascadeTxn(p, s, pre)
+				r.Count("directed_cascade_transactions", 1)
+			}
 			r.LogCase(fmt.Sprintf("C04 batch=%d schema=%d txn=%d schema=%s ops=%v", batch, si, ti, s.JSON(), opsJSON(ops)))
 			r.Eval(1)
 			// history independence: the twin must answer like the live database
@@ -410,6 +418,7 @@ func c04Child(r *ev.Run, batch int) {
 			pre = post
 			if bad := pre.CheckIntegrity(); len(bad) > 0 {
 				r.Count("restarts_after_integrity_violation", 1)
+				r.SetAdd("restart_reasons", strings.SplitN(bad[0], ":", 2)[0])
 				if !restart() {
 					break
 				}
